@@ -50,6 +50,10 @@ CLAIMED = {
          "Exploration: each artefact produced along generated transcripts goes through Compress x Validate (4 modes): ser/deser/ser identity, serialized_size equals bytes written, cross-mode agreement, all (or 36-192 sampled) proper prefixes must be Err rather than Ok or abort, and verification with all-deserialized inputs must agree with the originals on an honest and a tampered claim. Sensitivity: catches the sub-agent change seeded/C12 (Sonic verifier-key validity off-by-one).",
          "Truncation is checked on prefixes (as the property says), not arbitrary corruption; streaming-KZG types are not serializable.",
          "DESIGN.md §4 C12"),
+ "C13": ("exact big-integer oracle for the soundness bound + enumeration of all (lambda, rate) thresholds through the public compute_dimensions + property-based inspection of generated proofs (mirror structs, reference verifier)",
+         "All 256 x 5 (lambda, rate) points are enumerated on every run: the exact t (big-integer evaluation of the bound at t and t-1) predicts the polynomial lengths at which compute_dimensions must change its row count, so a t off by one is visible through the public API at lengths up to 2^41 without allocating anything; generated honest proofs of the three code-based schemes are deserialized into mirror structs and must contain exactly t columns/paths at the transcript-derived positions (checked by an independent reference verifier); the row encoder must be linear with the declared output length. Found and led to the repair of F14 (field size approximated by 2^bits).",
+         "calculate_t is only reachable through compute_dimensions and proofs; Brakedown's t is observed at its default parameters only (always capped at the codeword length for <= 12 variables).",
+         "DESIGN.md §4 C13"),
 }
 
 NOT_YET = "check not built yet in this round (planned, see DESIGN.md §4)"
